@@ -4,7 +4,12 @@ import io
 import itertools
 import json
 import math
+import queue
 import re
+import sys
+import threading
+import time
+from concurrent.futures import ThreadPoolExecutor
 from fractions import Fraction
 
 from . import common
@@ -18,10 +23,12 @@ RATIO = ("majority", "supermajority", "weighted", "confidence", "bayesian")
 # what a stub voter does: action_type strings, or raise, or an unusable confidence
 ACTS = ["PERMIT", "EXECUTE", "BLOCK", "DEFER", "ABSTAIN", "FAILURE", "UNKNOWN", "RAISE", "BADCONF"]
 KIND = {"PERMIT": "P", "EXECUTE": "P", "BLOCK": "B", "DEFER": "D", "ABSTAIN": "A", "FAILURE": "A",
-        "UNKNOWN": "A", "RAISE": "A", "BADCONF": "A", "INTERRUPT": "A"}
+        "UNKNOWN": "A", "RAISE": "A", "BADCONF": "A", "INTERRUPT": "A", "LATE": "A"}
 COQ_ACT = {"PERMIT": "APermit", "EXECUTE": "AExecute", "BLOCK": "ABlock", "DEFER": "ADefer",
            "ABSTAIN": "AOther", "FAILURE": "AOther", "UNKNOWN": "AOther"}
-FAILED = ("RAISE", "BADCONF", "INTERRUPT")   # INTERRUPT: a BaseException, never part of a generated ballot (op "interrupt")
+# INTERRUPT: a BaseException, never part of a generated ballot (op "interrupt"); LATE: a member whose agent had not
+# answered when the run_vote call returned (never scripted: read off the implementation - it cast nothing in that call)
+FAILED = ("RAISE", "BADCONF", "INTERRUPT", "LATE")
 CB_MODES = ["none", "ok", "raise"]
 COQ_CB = {None: "CbNone", "none": "CbNone", "ok": "CbReturns", "raise": "CbRaises"}
 GRID = [0.0, 0.25, 0.5, 0.75, 1.0, 2.0]
@@ -44,6 +51,12 @@ PROMPTS = {"plain": "proposal", "safe": "Should we ship the release?", "danger":
 ROLES = ["Voter", "Voter", "Voter", "RiskAssessor", "Executor", "Executor", "Observer"]
 PEEKS = ["stats", "history", "rankings", "all"]
 CAP = 1000                                   # QuorumSensing keeps the last 1000 results
+# time: timeout_seconds T of a timed history; a voter slower than T; a voter that needs time but less than T
+T_OUT, T_SLOW, T_BUSY = 0.2, 0.3, 0.15
+# a run_vote call may last this long beyond what its voters need (generous: a collection of the interpreter's garbage
+# with a hundred thousand cases alive can stop every thread for more than a second); once three calls of a run have
+# not come back the tree is known to hang and later calls are given HANG_LATER
+HANG_S, HANG_LATER = 10.0, 0.3
 
 
 class _HookError(RuntimeError):
@@ -74,21 +87,60 @@ class _Stub:
 
     def __init__(self, name, act, conf, inner=None):
         self.name, self.act, self.conf, self.inner, self.seen = name, act, conf, inner, None
+        self.delay = 0.0         # seconds this agent needs before it answers
+        self.call = None         # which run_vote call of the history the harness is making
+        self.done = []           # the calls in which this agent has finished answering (returned or raised)
 
     def express(self, signal):
         from operon_ai.core.types import ActionProtein
-        if self.act == "INTERRUPT":
-            raise _VoterInterrupt("voter agent interrupted")
-        if self.inner is not None:
-            self.seen = "RAISE"
-            self.seen = self.inner.express(signal)
-            return self.seen
-        if self.act == "RAISE":
-            raise RuntimeError("voter agent failed")
-        if self.act == "BADCONF":
-            return ActionProtein("PERMIT", {"confidence": "very high"}, 1.0)
-        payload = {"confidence": self.conf} if self.conf is not None else "free text"
-        return ActionProtein(self.act, payload, 1.0)
+        # what the agent was asked in THIS call: a slow agent answers the proposal it was given, also when the
+        # harness has meanwhile scripted the next call
+        act, conf, delay, call = self.act, self.conf, self.delay, self.call
+        try:
+            if delay:
+                time.sleep(delay)
+            if act == "INTERRUPT":
+                raise _VoterInterrupt("voter agent interrupted")
+            if self.inner is not None:
+                self.seen = "RAISE"
+                self.seen = self.inner.express(signal)
+                return self.seen
+            if act in ("RAISE", "LATE"):
+                raise RuntimeError("voter agent failed")
+            if act == "BADCONF":
+                return ActionProtein("PERMIT", {"confidence": "very high"}, 1.0)
+            payload = {"confidence": conf} if conf is not None else "free text"
+            return ActionProtein(act, payload, 1.0)
+        finally:
+            self.done.append(call)
+
+
+class _Caller:
+    """Makes calls that may not come back on a helper thread (one helper, reused): call(fn, limit) -> fn() or
+    common.Hang after `limit` seconds; the helper that is stuck is abandoned."""
+
+    def __init__(self):
+        self.inq, self.outq, self.stuck = queue.SimpleQueue(), queue.SimpleQueue(), False
+        threading.Thread(target=self._loop, daemon=True).start()
+
+    def _loop(self):
+        while not self.stuck:
+            fn = self.inq.get()
+            try:
+                self.outq.put((True, fn()))
+            except BaseException as e:  # noqa: handed to the caller
+                self.outq.put((False, e))
+
+    def call(self, fn, limit):
+        self.inq.put(fn)
+        try:
+            ok, val = self.outq.get(timeout=limit)
+        except queue.Empty:
+            self.stuck = True
+            raise common.Hang()
+        if ok:
+            return val
+        raise val
 
 
 def behaviour_of(seen):
@@ -103,6 +155,11 @@ def behaviour_of(seen):
         except (TypeError, ValueError):
             return {"act": "BADCONF", "c": None}
     return {"act": act, "c": None}
+
+
+def is_timed(case):
+    """Some voter of the history needs real time to answer."""
+    return any(b.get("delay") for st in case.get("steps", []) for b in st.get("script", []))
 
 
 def has_real(case):
@@ -327,6 +384,7 @@ class C06(Check):
     PID = "C06"
     HEADER = "From Verif Require Import C06.Model."
     RUN = "run_case"
+    CASE_TYPE = "tcase"
     N_QUICK = 2600
     N_THOROUGH = 30000
     RULE = ("a case is a HISTORY on one QuorumSensing/EmergencyQuorum instance: 1-4 run_vote calls with add_agent, remove_agent, "
@@ -343,7 +401,18 @@ class C06(Check):
             "(thorough) voters x 7 strategies + EmergencyQuorum; "
             "read-only accessors (get_statistics, get_vote_history with limits 0/1/2/100/10^6, get_agent_rankings; the caller also "
             "empties the containers it was handed) interleaved between the operations - they are NOT operations of the model, so any "
-            "effect on a later vote or on the final state is a disagreement; timeout_seconds and run_vote's context argument varied; "
+            "effect on a later vote or on the final state is a disagreement; timeout_seconds (constructor argument, assigned on an "
+            "EmergencyQuorum, assigned between votes) and run_vote's context argument varied; "
+            "TIME: stub voters that need real time (time.sleep) before they answer - less than timeout_seconds, or more - on instances "
+            "with a short timeout_seconds; per call the harness observes how many of the polled members' agents had answered when the "
+            "call returned (a member that had not cast no ballot in that call: the monitor demands a zero-confidence abstention for it, and "
+            "for everybody else the ballot cast in THAT call); exhaustive: everybody permits (blocks) with member j slower than "
+            "timeout_seconds, then at once a vote in which member i needs time (less than timeout_seconds) and member j alone / everybody "
+            "votes the other way, UNANIMOUS, MAJORITY, THRESHOLD, WEIGHTED, EmergencyQuorum, 3 voters, j, i at both ends (thorough: 2..4 "
+            "voters, every j, i, and a third vote); random: 2-4 calls with up to two slow members each, timeout_seconds reassigned, colony "
+            "and strategy changed, a slow call abandoned in between; these histories run side by side (their waiting overlaps); every "
+            "run_vote call is made on a helper thread and given 10 s beyond what its voters need (0.3 s once three calls have not come back): a call that does not come back ends the "
+            "history and is reported (C06/hang) after every violation found in what was reported; "
             "REAL voters: histories whose colony members are real BioAgents (the role-Voter agents the instance builds, and "
             "RiskAssessor/Executor/other-role agents in the profiles) on a shared ATP budget that lasts, ends in the middle of a "
             "vote, or is empty, asked proposals that make them permit, block (dangerous marker; prompt injection stopped by the "
@@ -382,7 +451,11 @@ class C06(Check):
                   "voter's BaseException): each vote's outcome is the aggregation of the current colony's ballot "
                   "under the current configuration, so every per-ballot theorem holds at every vote; reported counts of every vote are those of "
                   "its own ballot; the vote following ANY run_vote call (however it ended) is decided as if that call had not happened; callbacks "
-                  "never influence an outcome or the state; on_quorum_reached is only invoked for PERMIT. The model is tied to the code by evaluating it "
+                  "never influence an outcome or the state; on_quorum_reached is only invoked for PERMIT; and over all TIMED histories (every call "
+                  "says how long each member's agent needs; timeout_seconds assigned at will): delays and timeout_seconds never change an outcome or "
+                  "the instance (a timed history is its untimed history), every vote aggregates exactly one ballot per current member cast in that "
+                  "call however slow the member, with delays >= 0 no answer is outstanding when a call is over, and the vote after any timed call "
+                  "is decided as if that call had not happened. The model is tied to the code by evaluating it "
                   "in Coq on every generated ballot the implementation ran.")
     LEVEL_NOTE = ("Trusts: Coq kernel+VM; the correspondence harness; exact-rational idealisation of binary64 arithmetic (cases within 1e-9 "
                   "of a decision boundary are skipped unless binary64 is exact there). Axioms: none (Print Assumptions: closed). "
@@ -407,7 +480,11 @@ class C06(Check):
                "counters; agent names are Bacterium_<id>; learned "
                "reliabilities correct/cast are exact rationals in the model and binary64 quotients in the code, so vote weights and "
                "reliabilities are observed on a 2^-30 grid (confidences stay exact) and the 1e-9 margin rule covers the difference",
-               "timeout_seconds, run_vote's context, the 1000-entry history cap (the model keeps only the LAST recorded result, which is all "
+               "time: the model's run_vote polls the members one after the other and waits for each (answer instants = prefix sums of the "
+               "delays; the call is over at their sum); timeout_seconds is carried in the timed state and read by nothing, as in the code; the "
+               "harness realises delays with time.sleep in stub voters and compares only the NUMBER of members that had answered when the call "
+               "returned (no duration is compared); real BioAgents are never delayed; the allowance of the hang watchdog is wall-clock",
+               "run_vote's context, the 1000-entry history cap (the model keeps only the LAST recorded result, which is all "
                "that is ever read back), processing_time_ms, the score fields of QuorumResult, `silent` and the read-only accessors are "
                "not modelled (no verdict reads them; histories exceed the cap and call the accessors); callbacks are modelled by what they do to control flow (absent / return / raise), a voter's "
                "BaseException as abandoning the call at that voter; the console block of a non-silent instance is read with two regular "
@@ -417,11 +494,21 @@ class C06(Check):
                    "unanimous => PERMIT is demanded for THRESHOLD only when the needed count does not exceed the permit votes; for BAYESIAN it is "
                    "demanded at every threshold in [0,1) and its failure for custom thresholds > 0.5 with posterior <= threshold is the known "
                    "finding C06/unanimous-bayesian-high-threshold (unopposed ballots with abstainers are demanded only for thresholds <= 0.5)",
-                   "colony membership and configuration do not change during run_vote (callbacks and voter agents do not call back into the instance)"]
+                   "colony membership and configuration do not change during run_vote (callbacks and voter agents do not call back into the instance)",
+                   "one caller: run_vote calls on one instance are made one after the other (never from two threads at once); voters' delays are >= 0; "
+                   "a member whose agent has not answered when run_vote returns has cast no ballot in that call (it may only be reported as a "
+                   "zero-confidence abstention), every other member's ballot is the one its agent returned in that call"]
 
     def __init__(self, tier, seed):
         super().__init__(tier, seed)
         self._recorded = {}      # case (JSON) -> what its real agents answered, per run_vote call
+        self._timed = {}         # case (JSON) -> trace of a history whose voters need real time (run once, see _prefetch)
+        self._hung = {}          # case (JSON) -> trace of a history in which a run_vote call did not come back
+        self._hangs = 0
+        self._direct = False
+        self._fresh = {}         # id(case) -> (case, trace): the history was run when it was generated (_near)
+        self._tl = threading.local()
+        self._redirect = True    # contextlib.redirect_stdout is process-wide: switched off while histories run in parallel
 
     # ------------------------------------------------------------------ generation
     def _thr_for(self, rng, strat, n, exact):
@@ -589,8 +676,8 @@ class C06(Check):
                 st["limit"] = rng.choice([0, 1, 2, 100, 10 ** 6])
             return st
 
-        if not base["emergency"] and rng.random() < 0.15:
-            base["timeout"] = rng.choice([0.0, 0.001, 5.0, 30.0])
+        if rng.random() < 0.15:
+            base["timeout"] = rng.choice([0.0, 0.001, 0.05, 5.0, 30.0])
         if rng.random() < 0.1:
             steps.append(peek())                              # accessors on an instance that has not voted yet
         nvotes = rng.choice([1, 2, 2, 2, 3, 3, 4])
@@ -639,6 +726,8 @@ class C06(Check):
                     steps.append({"op": "strategy", "strategy": st, "thr": self._thr_for(rng, st, len(ids), exact)})
                 elif r < 0.85:
                     steps.append({"op": "min_voters", "k": rng.choice([0, 1, 1, 2, 3])})
+                elif r < 0.87:
+                    steps.append({"op": "timeout", "t": rng.choice([0.0, 0.001, 0.05, 5.0, 30.0])})
                 elif r < 0.92 and ids:
                     steps.append({"op": "rel", "id": rng.choice(ids + [99]), "ok": rng.random() < 0.6})
                 else:
@@ -797,9 +886,95 @@ class C06(Check):
                                 out.append(c)
         return out
 
+    def _timed_histories(self):
+        """TIME.  Two (three) votes on one instance whose timeout_seconds is T_OUT: in the first everybody permits (or
+        blocks) and member j's agent needs T_SLOW > timeout_seconds; in the second, made at once, member i's agent needs
+        T_BUSY < timeout_seconds and either the member that was slow before, or everybody, votes the other way.  Every
+        strategy whose verdict a single foreign ballot can turn, EmergencyQuorum included; quick: 3 voters, j, i at
+        both ends; thorough: 2..4 voters, every j and i, and a third vote after a pause."""
+        out = []
+        cfgs = [("unanimous", False), ("majority", False), ("threshold", False), ("threshold", True), ("weighted", False)]
+        sizes = (3,) if self.tier == "quick" else (2, 3, 4)
+        for (strat, em) in cfgs:
+            for n in sizes:
+                js = sorted({0, n - 1}) if self.tier == "quick" else range(n)
+                i_s = sorted({0, n - 1}) if self.tier == "quick" else range(n)
+                for j in js:
+                    for i in i_s:
+                        for first in ("PERMIT", "BLOCK"):
+                            other = "BLOCK" if first == "PERMIT" else "PERMIT"
+                            for second in ("one", "all"):
+                                v1 = [{"act": first, "c": 1.0} for _ in range(n)]
+                                v1[j]["delay"] = T_SLOW
+                                v2 = [{"act": other if second == "all" or k == j else first, "c": 1.0} for k in range(n)]
+                                v2[i]["delay"] = T_BUSY
+                                steps = [{"op": "vote", "script": v1}, {"op": "vote", "script": v2}]
+                                if self.tier != "quick":
+                                    steps += [{"op": "vote", "script": [{"act": first, "c": 1.0, "delay": T_BUSY / 2}] +
+                                               [{"act": other, "c": 1.0}] * (n - 1)}]
+                                out.append({"strategy": strat, "thr": None, "min_voters": 1, "emergency": em, "tracking": True,
+                                            "timeout": T_OUT, "voters": [{"w": 1.0, "rel": 1.0} for _ in range(n)],
+                                            "exact": True, "steps": steps})
+        return out
+
+    def _timed_case(self, rng):
+        """A random history in real time: 2-4 run_vote calls on an instance with a short timeout_seconds; in each call
+        up to two members' agents need time - less than timeout_seconds, or more; timeout_seconds assigned, members
+        added / removed, the strategy changed, a slow call abandoned in between."""
+        n = rng.choice([2, 3, 3, 4, 5])
+        strat = rng.choice(STRATS)
+        em = rng.random() < 0.25
+        if em:
+            strat = "threshold"
+        tmo = rng.choice([0.1, T_OUT, T_OUT])
+        case = {"strategy": strat, "thr": None if em else self._thr_for(rng, strat, n, True), "min_voters": 1,
+                "emergency": em, "tracking": True, "timeout": tmo, "exact": True,
+                "voters": [{"w": rng.choice([1.0, 1.0, 0.5, 2.0]), "rel": 1.0} for _ in range(n)]}
+        ids = list(range(n))
+        nxt = n
+        steps = []
+
+        def script():
+            style = rng.random()
+            out = [{"act": "PERMIT" if style < 0.3 else ("BLOCK" if style < 0.5 else rng.choice(["PERMIT", "PERMIT", "BLOCK", "BLOCK", "ABSTAIN", "RAISE"])),
+                    "c": rng.choice([1.0, 1.0, 0.5, None])} for _ in ids]
+            for _ in range(rng.choice([0, 1, 1, 2])):
+                if out:
+                    rng.choice(out)["delay"] = round(tmo * rng.choice([0.5, 0.75, 1.5, 1.5, 2.0]), 3)
+            return out
+
+        nvotes = rng.choice([2, 2, 3, 4])
+        for k in range(nvotes):
+            steps.append({"op": "vote", "script": script()})
+            if k == nvotes - 1:
+                break
+            r = rng.random()
+            if r < 0.15 and len(ids) < 6:
+                ids.append(nxt)
+                steps.append({"op": "add", "id": nxt, "w": 1.0})
+                nxt += 1
+            elif r < 0.3 and len(ids) > 1:
+                i = rng.choice(ids)
+                ids.remove(i)
+                steps.append({"op": "remove", "id": i})
+            elif r < 0.45:
+                tmo = rng.choice([0.1, T_OUT, 0.05])
+                steps.append({"op": "timeout", "t": tmo})
+            elif r < 0.55:
+                st = rng.choice(STRATS)
+                steps.append({"op": "strategy", "strategy": st, "thr": self._thr_for(rng, st, len(ids), True)})
+            elif r < 0.65 and ids:
+                steps.append({"op": "interrupt", "k": rng.randrange(len(ids)), "script": script()})
+        case["steps"] = steps
+        return case
+
     def gen_cases(self, rng, n):
         out = []
         skipped = 0
+        # histories in real time: a fixed small number (they wait), run side by side
+        timed = [self._timed_case(rng) for _ in range(12 if n <= self.N_QUICK else (60 if n <= self.N_THOROUGH else 24))]
+        self._prefetch(timed)
+        out += [c for c in timed if not self._near(c)]
         while len(out) < n:
             k = rng.random()
             if k < 0.05:
@@ -861,6 +1036,9 @@ class C06(Check):
         out += [c for c in self._abort_histories() if not self._near(c)]
         out += [c for c in self._real_histories() if not self._near(c)]
         out += [c for c in self._cap_histories() if not self._near(c)]
+        timed = self._timed_histories()
+        self._prefetch(timed)
+        out += [c for c in timed if not self._near(c)]
         return out
 
     def known_witnesses(self):
@@ -869,6 +1047,7 @@ class C06(Check):
     def corpus_cases(self):
         # the known-finding witness is part of every run, whatever is in corpus/C06
         cs = super().corpus_cases()
+        self._prefetch(cs)
         return cs if KNOWN_WITNESS in cs else [dict(KNOWN_WITNESS)] + cs
 
     def extra_checks(self):
@@ -887,9 +1066,52 @@ class C06(Check):
                                                  f"decision={r.decision.value} permits={r.permit_votes}",
                                                  case={"real_agents_starved": strat.value}))
         self.extra_cov["starved_real_agent_runs"] = len(list(Q.VotingStrategy))
+        # what is reported first: a report that contradicts the ballots, before a call that reported nothing
+        self.violations.sort(key=lambda v: v.signature == "C06/hang")
+        self.extra_cov["run_vote_calls_that_did_not_return"] = self._hangs
 
     # ------------------------------------------------------------------ implementation
+    def _quiet(self, target):
+        return contextlib.redirect_stdout(target) if self._redirect else contextlib.nullcontext()
+
+    def _call(self, fn, limit):
+        """fn() on this thread's helper thread; common.Hang when it has not come back after `limit` seconds."""
+        if self._direct:
+            return fn()
+        caller = getattr(self._tl, "caller", None)
+        if caller is None or caller.stuck:
+            caller = self._tl.caller = _Caller()
+        return caller.call(fn, limit)
+
+    def _prefetch(self, cases):
+        """Histories whose voters need real time (time.sleep) are run once, side by side, and their traces kept: the
+        waiting overlaps.  (Stub voters only: nothing they do is printed, so stdout is redirected once around all.)"""
+        todo = {json.dumps(c, sort_keys=True): c for c in cases if is_timed(c)}
+        todo = {k: c for k, c in todo.items() if k not in self._timed}
+        if not todo:
+            return
+        with contextlib.redirect_stdout(io.StringIO()):
+            self._redirect = False
+            try:
+                with ThreadPoolExecutor(max_workers=16) as ex:
+                    for k, d in zip(todo, ex.map(self._drive_now, todo.values())):
+                        self._timed[k] = d
+            finally:
+                self._redirect = True
+
     def _drive(self, case):
+        if self._timed or self._hung:
+            key = json.dumps(case, sort_keys=True)
+            if key in self._hung:
+                return self._hung[key]
+            if key in self._timed:
+                return self._timed[key]
+        d = self._drive_now(case)
+        if d.get("hang"):
+            self._hung[json.dumps(case, sort_keys=True)] = d
+        return d
+
+    def _drive_now(self, case):
         """Run the whole history on ONE real QuorumSensing / EmergencyQuorum instance.
         -> {"votes": [(snapshot, result)], "vote_steps": [step index], "final": [...], "stats": [...], "scripts": {...}}.
         The snapshot is the single-vote case read from the instance's public state immediately before that
@@ -899,7 +1121,14 @@ class C06(Check):
         returned or, when an on_quorum_* callback raised, what that callback had been handed; every other
         report of the same vote (callback arguments, the new get_vote_history() entry, the console block of a
         non-silent instance) is attached to it.  A vote step with "times": k is k consecutive run_vote calls with the
-        same script; "peek" steps call the read-only accessors."""
+        same script; "peek" steps call the read-only accessors.
+        TIME: a script entry's "delay" is how many seconds that voter's agent needs before it answers (time.sleep);
+        "timeout" (constructor argument; assigned after construction for EmergencyQuorum, whose constructor fixes
+        it) and the op "timeout" set timeout_seconds.  When a run_vote call returns, the harness notes which of the
+        polled members' agents have finished answering IN THAT CALL ("answered"); a member that has not is marked
+        act = "LATE" in the snapshot: it cast no ballot in that call.  Every run_vote is made through _call: a
+        call that has not come back HANG_S seconds after its voters are through ends the history ("hang")
+        (HANG_LATER seconds once three calls of this run have not come back)."""
         from operon_ai.topology import quorum as Q
         from operon_ai.core.agent import BioAgent
         from operon_ai.state.metabolism import ATP_Store
@@ -924,13 +1153,15 @@ class C06(Check):
             kw["on_quorum_failed"] = hook("failed", cbs.get("failed"))
         verbose = bool(case.get("verbose"))
         sink = io.StringIO()
-        with contextlib.redirect_stdout(sink):
+        with self._quiet(sink):
             if case.get("emergency"):
                 if case["thr"] is not None:
                     kw["emergency_threshold"] = case["thr"]
                 q = Q.EmergencyQuorum(len(vs), budget, silent=not verbose, **kw)
+                if "timeout" in case:
+                    q.timeout_seconds = case["timeout"]
             else:
-                if "timeout" in case:                         # never read by any verdict
+                if "timeout" in case:
                     kw["timeout_seconds"] = case["timeout"]
                 q = Q.QuorumSensing(len(vs), budget, strategy=Q.VotingStrategy(case["strategy"]),
                                     threshold=case["thr"], min_voters=case["min_voters"], silent=not verbose, **kw)
@@ -944,10 +1175,16 @@ class C06(Check):
             p.weight = v["w"]
             p.reliability_score = v["rel"]
         votes, vote_steps, scripts = [], [], {}
+        hang = False
+        ncalls = 0
         for si, st in enumerate(steps_of(case)):
+            if hang:
+                break
             op = st["op"]
             if op in ("vote", "interrupt"):
                 for rep in range(int(st.get("times", 1)) if op == "vote" else 1):
+                    if hang:
+                        break
                     if op == "interrupt" and not st["k"] < len(q.colony):
                         continue                              # nobody to interrupt: no call is made
                     script = st["script"]
@@ -960,10 +1197,14 @@ class C06(Check):
                         if op == "interrupt" and k == st["k"]:
                             b = {"act": "INTERRUPT", "c": None}
                         p.agent.act, p.agent.conf = b["act"], b["c"]
+                        p.agent.delay, p.agent.call = float(b.get("delay") or 0.0), ncalls
                         snap_voters.append({"act": b["act"], "c": b["c"], "w": p.weight, "rel": p.reliability_score})
+                        if b.get("delay"):
+                            snap_voters[-1]["delay"] = b["delay"]
                         if p.agent.inner is not None:
                             snap_voters[-1]["answered_by"] = p.agent.inner.role
                     polled = list(q.colony)
+                    needs = sum(p.agent.delay for p in polled)
                     snap = {"strategy": q.strategy.value, "thr": q.custom_threshold, "min_voters": q.min_voters,
                             "emergency": False, "voters": snap_voters,
                             "exact": bool(case.get("exact")) and all(_dyadic(x["rel"]) for x in snap_voters)}
@@ -972,9 +1213,10 @@ class C06(Check):
                     last_before = before[-1] if before else None
                     console = io.StringIO()
                     args = (PROMPTS[st.get("prompt", "plain")],) + (({"urgency": "high"},) if st.get("context") else ())
+                    limit = (HANG_S if self._hangs < 3 else HANG_LATER) + 2.0 * needs
                     try:
-                        with contextlib.redirect_stdout(console):
-                            r = q.run_vote(*args)   # a single pass over the voters: cannot hang, no watchdog thread
+                        with self._quiet(console):
+                            r = self._call(lambda: q.run_vote(*args), limit)
                         t = _result_dict(r)
                         t["end"] = "returned"
                     except ZeroDivisionError:
@@ -984,10 +1226,23 @@ class C06(Check):
                         t["end"] = "callback-raised"
                     except _VoterInterrupt:
                         t = {"interrupted": True}
+                    except common.Hang:
+                        t = {"hang": True, "limit": limit, "needs": needs}
+                        hang = True
+                        self._hangs += 1
+                    # whose agent has finished answering in THIS call, now that the call is over
+                    done = [ncalls in p.agent.done for p in polled]
+                    t["answered"] = sum(done)
+                    ncalls += 1
                     for sv, p in zip(snap_voters, polled):        # what the real agents answered in this call
                         if sv["act"] == "REAL":
                             sv.update(behaviour_of(p.agent.seen))
                     scripts[(si, rep)] = [{"act": sv["act"], "c": sv["c"]} for sv in snap_voters]
+                    if "interrupted" not in t and not hang:
+                        for sv, ok in zip(snap_voters, done):     # no answer by the end of the call = no ballot in this call
+                            if not ok:
+                                sv["scripted"] = sv["act"]
+                                sv["act"], sv["c"] = "LATE", None
                     t["callbacks"] = list(calls)
                     hist = q.get_vote_history(1)
                     if hist and hist[-1] is not last_before:      # the entry this call added (also beyond the 1000-entry cap)
@@ -997,7 +1252,7 @@ class C06(Check):
                     votes.append((snap, t))
                     vote_steps.append(si)
                 continue
-            with contextlib.redirect_stdout(sink):
+            with self._quiet(sink):
                 if op == "add":
                     prof = q.add_agent(agent_name(st["id"]), st["w"])
                     prof.agent = _Stub(prof.agent.name, "REAL", None, prof.agent) if st.get("real") \
@@ -1019,15 +1274,20 @@ class C06(Check):
                     q.on_quorum_failed = hook("failed", st.get("failed"))
                 elif op == "peek":
                     self._peek(q, st)
+                elif op == "timeout":
+                    q.timeout_seconds = st["t"]
                 else:
                     raise ValueError(op)
-        final = [[int(p.agent.name.split("_")[1]), p.votes_cast, p.correct_votes,
-                  grid30(p.reliability_score), grid30(p.weight)] for p in q.colony]
-        with contextlib.redirect_stdout(sink):
-            gs = q.get_statistics()
-        stats = [gs["total_votes"], gs["quorums_reached"], gs["quorums_failed"]]
         if has_real(case):
             self._recorded[json.dumps(case, sort_keys=True)] = scripts
+        if hang:                                              # the instance is still in use by the call that is stuck
+            return {"votes": votes, "vote_steps": vote_steps, "final": [], "stats": [0, 0, 0], "scripts": scripts,
+                    "kept": 0, "hang": True}
+        final = [[int(p.agent.name.split("_")[1]), p.votes_cast, p.correct_votes,
+                  grid30(p.reliability_score), grid30(p.weight)] for p in q.colony]
+        with self._quiet(sink):
+            gs = q.get_statistics()
+        stats = [gs["total_votes"], gs["quorums_reached"], gs["quorums_failed"]]
         return {"votes": votes, "vote_steps": vote_steps, "final": final, "stats": stats, "scripts": scripts,
                 "kept": len(q.get_vote_history(10 ** 6))}
 
@@ -1050,21 +1310,33 @@ class C06(Check):
                 g.clear()
 
     def _run(self, case):
-        """Result of the (first) vote of a case."""
-        return self._drive(case)["votes"][0][1]
+        """Result of the (first) vote of a case.  (Used for the metamorphic re-runs of a ballot that has just been
+        voted on with one voter improved: made directly, without the helper thread.)"""
+        self._direct = True
+        try:
+            return self._drive(case)["votes"][0][1]
+        finally:
+            self._direct = False
 
     def _near(self, case):
         """Some vote of the history is within rounding distance of its decision boundary."""
         if "steps" not in case:
             return skip_for_rounding(case)
-        return any(skip_for_rounding(snap) for snap, t in self._drive(case)["votes"] if "interrupted" not in t)
+        d = self._drive(case)
+        self._fresh[id(case)] = (case, d)        # run_impl of this very case object takes it from here
+        return any(skip_for_rounding(snap) for snap, t in d["votes"]
+                   if "interrupted" not in t and "hang" not in t)
 
     def run_impl(self, case):
         if case.get("real_agents_starved"):
             return [[0]], {"skip": True}
-        d = self._drive(case)
+        kept = self._fresh.pop(id(case), None)
+        d = kept[1] if kept is not None and kept[0] is case else self._drive(case)
         obs = []
         for _snap, t in d["votes"]:
+            if "hang" in t:
+                obs.append([-999])
+                continue
             if "interrupted" in t:
                 obs.append([-3])
                 continue
@@ -1075,6 +1347,7 @@ class C06(Check):
                             t["permit"], t["block"], t["abstain"], len(t["votes"])])
                 for (k, w, c) in t["votes"]:
                     obs.append([VT[k], grid30(w), c.numerator, c.denominator])
+            obs.append([-7, t["answered"]])
             obs.append([-4] + ([1 if which == "reached" else 2 for which, _r in t["callbacks"]] or [0]))
         obs.append([-2, len(d["final"])])
         obs += d["final"]
@@ -1091,7 +1364,7 @@ class C06(Check):
 
     def coq_case(self, case):
         if case.get("real_agents_starved"):
-            return "(mkConfig Majority None 1, true, [], [])"
+            return "(mkConfig Majority None 1, true, 30, [], [])"
         if case.get("emergency"):
             cfg = f"emergency_cfg {cq(Fraction(0.3 if case['thr'] is None else case['thr']))}"
         else:
@@ -1113,6 +1386,19 @@ class C06(Check):
             op = st["op"]
             if op == "peek":
                 continue                                      # read-only accessors: no operation of the model
+            if op == "timeout":
+                ops.append(f"TSetTimeout {cq(Fraction(st['t']))}")
+                continue
+            if op in ("vote", "interrupt") and any(b.get("delay") for b in st["script"]):
+                # a timed call: how long every member's agent needs (members beyond the list answer at once)
+                sc = [b if b["act"] != "INTERRUPT" else {"act": "RAISE", "c": None} for b in st["script"]]
+                term = (f"(script_of {clist([self._coq_beh(b) for b in sc])}) "
+                        f"(delays_of {clist([cq(Fraction(b.get('delay') or 0)) for b in sc])})")
+                if op == "vote":
+                    ops += [f"TVote {term}"] * int(st.get("times", 1))
+                else:
+                    ops.append(f"TInterrupted {term} {int(st['k'])}%nat")
+                continue
             if op == "vote":
                 times = int(st.get("times", 1))
                 if rec is not None:
@@ -1146,6 +1432,7 @@ class C06(Check):
             else:
                 raise ValueError(op)
         # k consecutive identical run_vote calls are written `repeat op k` (List.repeat), not k times
+        # operations without a clock are wrapped: TOp (...)
         parts, cur = [], []
         for o in ops:
             if o.startswith("REPEAT "):
@@ -1153,12 +1440,14 @@ class C06(Check):
                     parts.append(clist(cur))
                     cur = []
                 n, term = o[len("REPEAT "):].split(" ", 1)
-                parts.append(f"repeat {term} {n}")
+                parts.append(f"repeat (TOp {term}) {n}")
             else:
-                cur.append(o)
+                cur.append(o if o.startswith(("TVote ", "TInterrupted ", "TSetTimeout ")) else f"TOp ({o})")
         if cur or not parts:
             parts.append(clist(cur))
-        return ctuple(cfg, "true" if case.get("tracking", True) else "false", ws, "(" + " ++ ".join(parts) + ")")
+        timeout = case.get("timeout", 5.0 if case.get("emergency") else 30.0)
+        return ctuple(cfg, "true" if case.get("tracking", True) else "false", cq(Fraction(timeout)), ws,
+                      "(" + " ++ ".join(parts) + ")")
 
     # ------------------------------------------------------------------ the property, on the implementation
     def monitor(self, case, obs, trace, meta=True):
@@ -1166,7 +1455,7 @@ class C06(Check):
         instance has AT THAT VOTE (read from its public state just before run_vote)."""
         if trace.get("skip"):
             return None
-        if trace.get("harness_error") or trace.get("hang"):
+        if trace.get("harness_error") or (trace.get("hang") and "votes" not in trace):
             return Violation("C06/raises", f"run_vote did not return normally: {trace}")
         nv = len(trace["votes"])
         rerun = set()            # the metamorphic re-runs depend on the snapshot only: once per distinct snapshot
@@ -1175,12 +1464,22 @@ class C06(Check):
             if prev is not None and prev[0] == snap and prev[1] == t:
                 continue         # the same reports about the same ballots as the call before (long runs of identical votes)
             prev = (snap, t)
+            if "hang" in t:
+                # nothing was reported, so nothing reported is wrong - but a proposal on which run_vote never
+                # answers is not decided by the votes either; reported after every violation of the reports
+                slow = [x for x in snap["voters"] if x.get("delay")]
+                return Violation("C06/hang", f"call {k + 1} of the history: run_vote had not returned {t['limit']:.2f} s after it "
+                                 f"was called; its voters needed {t['needs']:.2f} s in all ({len(slow)} slow voter(s)), "
+                                 f"{t['answered']} of {len(snap['voters'])} had answered", case=case)
             key = json.dumps(snap, sort_keys=True) if nv > 8 else k
             v = self.monitor_call(snap, t, meta and key not in rerun)
             rerun.add(key)
             if v is not None:
                 if nv > 1 or "steps" in case:
                     cfg = f"{snap['strategy']}, threshold {snap['thr']}, min_voters {snap['min_voters']}, {len(snap['voters'])} voters"
+                    late = [i for i, x in enumerate(snap["voters"]) if x["act"] == "LATE"]
+                    if late:
+                        cfg += f"; the agent(s) of voter(s) {late} had not answered when the call returned: no ballot, must be zero-confidence abstentions"
                     v.what = f"vote {k + 1} of {nv} in the history (instance then: {cfg}): " + v.what
                 v.case = case
                 return v
@@ -1354,13 +1653,39 @@ class C06(Check):
         sizes = []
         unfinished = False
         prev = None
-        for snap, t in (trace.get("votes") or []):
+        after_overrun = False
+        if is_timed(case):
+            ks.append("timed-history")
+        # timeout_seconds at each aggregated-or-abandoned call, in order (classification only)
+        timeouts, cur_t = [], case.get("timeout", 5.0 if case.get("emergency") else 30.0)
+        for st in steps:
+            if st["op"] == "timeout":
+                cur_t = st["t"]
+            elif st["op"] in ("vote", "interrupt"):
+                timeouts += [cur_t] * int(st.get("times", 1))
+        for ci, (snap, t) in enumerate(trace.get("votes") or []):
             if prev is not None and prev[0] == snap and prev[1].get("decision") == t.get("decision") and prev[1].get("end") == t.get("end") == "returned":
                 continue                                      # a repetition inside a long run of identical votes
             prev = (snap, t)
             for v in snap["voters"]:
                 if "answered_by" in v:
                     ks.append(f"real-{v['answered_by']}-answered={v['act']}")
+            if "hang" in t:
+                ks.append("outcome=hang")
+                continue
+            slow = [x.get("delay", 0) for x in snap["voters"]]
+            if any(slow):
+                tmo = timeouts[ci] if ci < len(timeouts) else None
+                ks.append("call-with-slow-voters")
+                if tmo is not None and sum(slow) > tmo:
+                    ks.append("call-outlasts-timeout_seconds")
+                if after_overrun and "interrupted" not in t:
+                    ks.append("vote-right-after-a-call-that-outlasted-timeout_seconds")
+                after_overrun = tmo is not None and sum(slow) > tmo
+            else:
+                after_overrun = False
+            if t.get("answered") is not None and "interrupted" not in t and t["answered"] != len(snap["voters"]):
+                ks.append("call-returned-before-every-voter-answered")
             if unfinished and "interrupted" not in t:
                 ks.append("vote-after-a-call-that-did-not-return")
             unfinished = "interrupted" in t or "raised" in t or t.get("end") == "callback-raised"
